@@ -182,11 +182,12 @@ pub fn wl_mutex<M: RawMutex + Send + Sync + 'static>(seed: u64, n: usize, rounds
                         let c0 = run.now();
                         let got = m.try_lock();
                         let c1 = run.now();
-                        fr.push(FairRec { task: i as u16, first_call: c0, reg_ret: 0, end_call: c0, end_ret: c1, ok: got.is_some(), n: 1 });
+                        fr.push(FairRec { task: i as u16, first_call: c0, reg_ret: 0, end_call: c0, end_ret: c1, ok: got.is_some(), n: 1, rel_call: 0 });
                         log!(lg, run, i, 0u8, 0u64, {
                             match got {
                                 Some(mut g) => {
                                     crit(&mut *g);
+                                    fr.last_mut().unwrap().rel_call = run.now();
                                     drop(g);
                                     ((), 1)
                                 }
@@ -208,6 +209,7 @@ pub fn wl_mutex<M: RawMutex + Send + Sync + 'static>(seed: u64, n: usize, rounds
                                 if rng.below(3) == 0 {
                                     std::thread::yield_now();
                                 }
+                                fr.last_mut().unwrap().rel_call = run.now();
                                 drop(g);
                                 ((), 1)
                             }
@@ -236,7 +238,14 @@ pub fn wl_mutex<M: RawMutex + Send + Sync + 'static>(seed: u64, n: usize, rounds
     let names = ["try_lock", "lock"];
     queues_empty(ctx, "mutex", &mut |v| m.verif_inspect(v));
     let total = acquired.load(Relaxed);
-    let value = *m.try_lock().expect("mutex free after the run");
+    // every guard and every future is gone: the mutex must be free (a crate that is broken elsewhere may fail this)
+    let value = match m.try_lock() {
+        Some(g) => *g,
+        None => {
+            ctx.check("C02", "mutex-free-once-every-guard-is-dropped", true, false, || "try_lock() fails although no guard and no lock future is alive".into());
+            total
+        }
+    };
     let ov = overlap.load(Relaxed);
     ctx.check("C02", "threads-never-inside-the-critical-section-together", total > 0, ov == 0, || format!("{} overlapping critical sections observed", ov));
     ctx.check("C02", "non-atomic-counter-equals-number-of-acquisitions", total > 0, value == total || verdict != Verdict::Finished, || {
@@ -244,7 +253,7 @@ pub fn wl_mutex<M: RawMutex + Send + Sync + 'static>(seed: u64, n: usize, rounds
     });
     if fair {
         let recs = fair_recs.lock().unwrap();
-        let v = fairness_violation(&recs);
+        let v = fairness_violation(&recs, overlap.load(Relaxed) == 0);
         ctx.check("C04", "no-attempt-overtakes-a-waiter-that-was-queued-before-it-started", recs.iter().any(|r| r.reg_ret > 0), v.is_none(), || v.clone().unwrap());
     }
     match verdict {
@@ -280,35 +289,62 @@ pub struct FairRec {
     pub end_ret: u64,
     pub ok: bool,
     pub n: u64,
+    /// successful attempts: stamp taken right before the guard / releaser was given back (0 = never)
+    pub rel_call: u64,
 }
 
 fn fair_rec(run: &Arc<Run>, i: usize, ok: bool, n: u64) -> FairRec {
     let c = &run.tasks[i];
-    FairRec { task: i as u16, first_call: c.t_first_call.load(Relaxed), reg_ret: c.t_reg_ret.load(Relaxed), end_call: c.t_end_call.load(Relaxed), end_ret: c.t_end_ret.load(Relaxed), ok, n }
+    FairRec { task: i as u16, first_call: c.t_first_call.load(Relaxed), reg_ret: c.t_reg_ret.load(Relaxed), end_call: c.t_end_call.load(Relaxed), end_ret: c.t_end_ret.load(Relaxed), ok, n, rel_call: 0 }
 }
 
 /// Threaded fairness oracle (C04 / C07), sound by construction: attempt A *returned* Pending from its first poll
 /// (it is queued) before attempt B was even *called*; B succeeded and its successful call returned before the
 /// call that completed A (or the drop that cancelled A) began. Then B overtook a request that started waiting
 /// earlier and was still pending. Requests for zero permits (n == 0) are exempt on both sides.
-fn fairness_violation(recs: &[FairRec]) -> Option<String> {
-    let mut succ: Vec<&FairRec> = recs.iter().filter(|r| r.ok && r.n > 0).collect();
+///
+/// `exclusive` (mutex; semaphore with one permit in total; only if the run showed no overlap of holders): the
+/// resource has one holder at a time, so an attempt B whose completing call began after holder P had acquired
+/// cannot have acquired before P *began* to give the resource back: for a B that never waited (try_lock, or a
+/// future that completed at its first poll) the effective start is max(B.first_call, P.rel_call). This catches an attempt that was already under way when A queued up but can
+/// only have succeeded after A was queued (e.g. a try_lock that checks the queue and takes the lock in two
+/// separate critical sections).
+fn fairness_violation(recs: &[FairRec], exclusive: bool) -> Option<String> {
+    let mut succ: Vec<(u64, &FairRec)> = recs.iter().filter(|r| r.ok && r.n > 0).map(|r| (r.first_call, r)).collect();
     if succ.is_empty() {
         return None;
     }
-    succ.sort_by_key(|r| r.first_call);
+    if exclusive {
+        let mut by_end: Vec<&FairRec> = succ.iter().map(|x| x.1).collect();
+        by_end.sort_by_key(|r| r.end_ret);
+        let mut pref = vec![0u64; by_end.len() + 1];
+        for (k, p) in by_end.iter().enumerate() {
+            pref[k + 1] = pref[k].max(p.rel_call);
+        }
+        for x in succ.iter_mut() {
+            // only for attempts that never waited: one that waited took its place in the queue when it
+            // registered, which may well have been before A did
+            if x.1.reg_ret == 0 {
+                let k = by_end.partition_point(|p| p.end_ret < x.1.end_call);
+                x.0 = x.0.max(pref[k]);
+            }
+        }
+    }
+    succ.sort_by_key(|x| x.0);
+    let eff: Vec<u64> = succ.iter().map(|x| x.0).collect();
+    let succ: Vec<&FairRec> = succ.iter().map(|x| x.1).collect();
     // suffix minimum of end_ret over the successes ordered by first_call
     let mut suf: Vec<(u64, usize)> = vec![(u64::MAX, 0); succ.len() + 1];
     for k in (0..succ.len()).rev() {
         suf[k] = if succ[k].end_ret < suf[k + 1].0 { (succ[k].end_ret, k) } else { suf[k + 1] };
     }
     for a in recs.iter().filter(|r| r.reg_ret > 0 && r.n > 0) {
-        let idx = succ.partition_point(|b| b.first_call <= a.reg_ret);
+        let idx = eff.partition_point(|e| *e <= a.reg_ret);
         if idx < succ.len() && suf[idx].0 < a.end_call {
             let b = succ[suf[idx].1];
             return Some(format!(
-                "task {} was queued (first poll returned Pending at stamp {}) before task {} started its attempt (stamp {}), yet that attempt succeeded (returned at {}) before the waiting one was completed or dropped (that call began at {})",
-                a.task, a.reg_ret, b.task, b.first_call, b.end_ret, a.end_call
+                "task {} was queued (first poll returned Pending at stamp {}) before the attempt of task {} can have taken effect (called at {}, previous holder began to release at {}), yet that attempt succeeded (returned at {}) before the waiting one was completed or dropped (that call began at {})",
+                a.task, a.reg_ret, b.task, b.first_call, eff[suf[idx].1], b.end_ret, a.end_call
             ));
         }
     }
@@ -330,8 +366,8 @@ fn take_fail(ctx: &mut Ctx, logs: &[Vec<LogEv>], names: &[&str]) -> Option<Viola
     if ctx.fails.is_empty() {
         return None;
     }
+    // the other failed predicates of this run stay in `ctx.fails`: `run_workload` reports them as well
     let f: Fail = ctx.fails.remove(0);
-    ctx.fails.clear();
     Some(Violation { prop: f.prop, pred: f.pred, detail: f.detail, log: dump(logs, names) })
 }
 
@@ -453,11 +489,12 @@ fn wl_semaphore_inner<S: SemOps>(sem: S, seed: u64, n: usize, rounds: usize, fai
                         let c0 = run.now();
                         let got = sem.try_acquire(k);
                         let c1 = run.now();
-                        fr.push(FairRec { task: i as u16, first_call: c0, reg_ret: 0, end_call: c0, end_ret: c1, ok: got.is_some(), n: k as u64 });
+                        fr.push(FairRec { task: i as u16, first_call: c0, reg_ret: 0, end_call: c0, end_ret: c1, ok: got.is_some(), n: k as u64, rel_call: 0 });
                         log!(lg, run, i, 0u8, k, {
                             match got {
                                 Some(rel) => {
                                     hold(k);
+                                    fr.last_mut().unwrap().rel_call = run.now();
                                     drop(rel);
                                     ((), 1)
                                 }
@@ -488,6 +525,7 @@ fn wl_semaphore_inner<S: SemOps>(sem: S, seed: u64, n: usize, rounds: usize, fai
                         match o {
                             Outcome::Ready(mut rel) => {
                                 hold(k);
+                                fr.last_mut().unwrap().rel_call = run.now();
                                 if rng.below(S::MANUAL_RELEASE_ONE_IN) == 0 {
                                     // manual release through disarm
                                     let d = rel.disarm();
@@ -533,7 +571,7 @@ fn wl_semaphore_inner<S: SemOps>(sem: S, seed: u64, n: usize, rounds: usize, fai
     ctx.check("C05", "all-permits-home-after-the-run", true, p == total, || format!("permits()={} after all releasers are gone, total {}", p, total));
     if fair {
         let recs = fair_recs.lock().unwrap();
-        let v = fairness_violation(&recs);
+        let v = fairness_violation(&recs, total == 1 && over.load(Relaxed) == 0);
         ctx.check("C07", "no-request-overtakes-one-that-was-queued-before-it-started", recs.iter().any(|r| r.reg_ret > 0 && r.n > 0), v.is_none(), || v.clone().unwrap());
     }
     match verdict {
@@ -1941,7 +1979,24 @@ pub fn wl_lastdrop<L: RawMutex + Send + Sync + 'static>(seed: u64, n: usize, kin
 }
 
 // ------------------------------------------------------------------ dispatcher
-pub fn run_workload(name: &str, seed: u64, ctx: &mut Ctx, st: &mut ConcStats) -> Option<Violation> {
+/// Runs one threaded run. Returns every failed predicate of the run (a run that ended in the watchdog may
+/// still have produced a verdict of the property under check - e.g. an overtaken waiter - before it got stuck).
+pub fn run_workload(name: &str, seed: u64, ctx: &mut Ctx, st: &mut ConcStats) -> Vec<Violation> {
+    let first = run_workload_first(name, seed, ctx, st);
+    let mut all: Vec<Violation> = vec![];
+    let log = first.as_ref().map(|v| v.log.clone()).unwrap_or_default();
+    if let Some(v) = first {
+        all.push(v);
+    }
+    for f in std::mem::take(&mut ctx.fails) {
+        if !all.iter().any(|v| v.prop == f.prop && v.pred == f.pred) {
+            all.push(Violation { prop: f.prop, pred: f.pred, detail: f.detail, log: log.clone() });
+        }
+    }
+    all
+}
+
+fn run_workload_first(name: &str, seed: u64, ctx: &mut Ctx, st: &mut ConcStats) -> Option<Violation> {
     crate::conc::WORKER_PANICKED.store(false, Relaxed);
     WORKER_PANICS.lock().unwrap().clear();
     let r = run_workload_inner(name, seed, ctx, st);
